@@ -44,7 +44,7 @@ mod permissioned_example;
 const START: u32 = 100;
 /// the argument of the forwarded call (never equal to a ledger number of the horizon)
 const X: u32 = 7;
-const MAXES: [i128; 2] = [0, 5];
+
 
 #[derive(Clone, Copy, Debug, PartialEq, Eq, PartialOrd, Ord, Hash)]
 enum Who {
@@ -454,7 +454,7 @@ impl Fw {
         // (what, value in the call, value in the tampered tree)
         let dims: Vec<(&str, ScVal, ScVal)> = vec![
             ("fee token", sc_addr(&i2.toks[*tok]), sc_addr(&i2.toks[other_tok])),
-            ("max_fee_amount", to_sc(e, (*max).into_val(e)), to_sc(e, (*max + 1).into_val(e))),
+            ("max_fee_amount", to_sc(e, (*max).into_val(e)), to_sc(e, (if *max == i128::MAX { *max - 1 } else { *max + 1 }).into_val(e))),
             ("expiration_ledger", ScVal::U32(*exp), ScVal::U32(exp.saturating_add(1))),
             ("target contract", sc_addr(&i2.target(*tgt)), sc_addr(&i2.target(Tgt::G2))),
             ("target fn", sc_sym(fn_name(*f)), sc_sym("pong")),
@@ -537,9 +537,10 @@ impl Fw {
         }
         for user in users {
             for tok in toks {
-                for max in MAXES.iter().rev() {
+                let maxes: &[i128] = if self.thorough { &[5, 0, -1, i128::MAX] } else { &[5, 0] };
+                for max in maxes {
                     let mut fees: Vec<i128> = vec![];
-                    for fee in [1, *max, *max + 1, 0, -1] {
+                    for fee in [1, *max, max.saturating_add(1), 0, -1] {
                         if !fees.contains(&fee) {
                             fees.push(fee);
                         }
@@ -632,7 +633,9 @@ impl World for Fw {
             Mode::Forwards => {
                 let toks: &[usize] = if self.flavour == Flavour::Permissioned { &[0, 1] } else { &[0] };
                 self.forward_ops(now, max_live, &[Who::U, Who::R, Who::F], toks, &[Tgt::G, Tgt::B], &mut v);
-                let owners: &[Who] = if self.thorough { &[Who::U, Who::R] } else { &[Who::U] };
+                // (the relayer can never be the paying user: the host refuses two authorizations
+                // of one address in one frame, so only U's allowance matters)
+                let owners: &[Who] = &[Who::U];
                 for (k, owner) in owners.iter().enumerate() {
                     // pre-existing allowance in {none, max-1, max, max+1} for max = 5
                     for amt in [4i128, 5, 6, 0] {
@@ -689,6 +692,7 @@ impl World for Fw {
                     bad.push("user=forwarder");
                 }
                 match bad.len() {
+                    0 if *user == Who::R => "forward.user=relayer".into(),
                     0 => "forward.valid".into(),
                     1 => format!("forward.{}", bad[0]),
                     _ => "forward.several-invalid".into(),
@@ -723,7 +727,7 @@ impl World for Fw {
             // failure => every balance, allowance, call log and list entry unchanged: the engine
             // compares the digest of the storage of *all* contracts with the pre-state
             if let Op::Forward { user, tok, fee, max, rel, tgt, .. } = op {
-                let params_ok = *fee > 0 && fee <= max && *rel >= 0 && *rel <= 1000 && *tgt != Tgt::B && *user != Who::F;
+                let params_ok = *fee > 0 && fee <= max && *rel >= 0 && *rel <= 1000 && *tgt != Tgt::B && *user == Who::U;
                 if params_ok {
                     let listed = m.list.is_empty() || m.list.contains(tok);
                     let ui = ACCTS.iter().position(|a| a == user).unwrap();
